@@ -8,6 +8,12 @@ C10 driver.  Case lines:
       start: new:<p> | default | builder | axum:<own|none>:<0|1> | baxum:<own|none>:<0|1> | srv:<p> | srvopt:<p> | srvnone
       op:    add:<p> | opt:<p> | none | prepare | axum | uroute | tobuilder | tobuilder-axum | routes | serve
       (<p> = position in the declared list; axum:<fallback>:<1 = with the user routes /u/hello, /a.S/Own>)
+  seq <mode> <ctor> <n> { <idx> <full-name> <k> <method>^k }^n <r> { <flavor> <path-hex> <query-hex|-> }^r
+      one router (Routes::default + add_service in order), r requests; mode = how the value is used
+      (same | clones | clone-used | oneshot-each | conc | srv… = served by a transport::Server with that
+      configuration on one connection | srv-2conn = one connection per request); ctor = how each generated
+      server was made / wrapped; flavor = HTTP method / version / content-type / extra headers of the request.
+      Observed / model: the r nine-token records one after the other.
 Observed / model line (only what the property talks about: which handler ran, grpc-status, HTTP
 status, content-type — not which internal route answered):
   handler <svc|-> <method|-> status <grpc-status|none> http <code> ct <content-type|none>      or   panic
@@ -117,6 +123,56 @@ def judge (reg : List Svc) (path : Bytes) (ownFallback : Bool) (userPaths : List
         verdict [("dispatch-iff-exact-path", Spec.Router.handlerOk decl path o),
                  ("every-other-path-unimplemented", excluded || Spec.Router.answerOk decl path 0 o)]
 
+/-- The history a `seq` mode stands for, as uses of router values (value 0 = the built one). -/
+def usesOf (mode : String) (paths : List Bytes) : List Use :=
+  let rec go (k : Nat) (next : Nat) : List Bytes → List Use
+    | [] => []
+    | p :: ps =>
+      if mode == "clones" then
+        if k % 2 == 0 then .clone 0 :: .call next p :: go (k + 1) (next + 1) ps
+        else .call 0 p :: go (k + 1) next ps
+      else if mode == "clone-used" then
+        if k == 0 then .call 0 p :: .clone 0 :: go (k + 1) 2 ps
+        else .call (k % 2) p :: go (k + 1) 2 ps
+      else if mode == "oneshot-each" || mode == "srv-2conn" then
+        .clone 0 :: .call next p :: go (k + 1) (next + 1) ps
+      else if mode.startsWith "srv" then
+        -- one connection: its service is one clone of the served value
+        (if k == 0 then [.clone 0] else []) ++ .call 1 p :: go (k + 1) 2 ps
+      else .call 0 p :: go (k + 1) next ps
+  go 0 1 paths
+
+def parseReqs : Nat → List String → Option (List Bytes)
+  | 0, [] => some []
+  | n + 1, _flavor :: p :: _q :: rest =>
+    match unhex p, parseReqs n rest with
+    | some path, some ps => some (path :: ps)
+    | _, _ => none
+  | _, _ => none
+
+def chunks9 : Nat → List String → List (List String)
+  | 0, _ => []
+  | _, [] => []
+  | fuel + 1, l => l.take 9 :: chunks9 fuel (l.drop 9)
+
+def handleSeq (mode : String) (reg : List Svc) (paths : List Bytes) (obs : List String) : String × String :=
+  let uses := usesOf mode paths
+  let answers :=
+    if mode.startsWith "grow" then
+      -- the first half is registered, the requests are asked, the rest is added one by one, the
+      -- requests are asked again: the harness reports the second round
+      let t0 : Table := ⟨reg.take (reg.length / 2), [], .unimplemented⟩
+      match reg.drop (reg.length / 2) with
+      | [] => Proc.answers ⟨[t0]⟩ uses
+      | s :: more => (Proc.rounds t0 ((uses, s) :: more.map (fun x => ([], x))) uses).drop paths.length
+    else Proc.answers ⟨[⟨reg, [], .unimplemented⟩]⟩ uses
+  let model := String.intercalate " " (answers.map (fun pa => render pa.2))
+  if hasDup (reg.map Svc.name) then (model, "ok") else
+  let recs := chunks9 (obs.length + 1) obs
+  if recs.length != paths.length || obs.length != 9 * paths.length then (model, "fail:no-response-observed") else
+  let vs := (paths.zip recs).map (fun (p, r) => judge reg p false [] r)
+  (model, (vs.find? (· != "ok")).getD "ok")
+
 def handle (case obs : List String) : String × String :=
   if vacuous obs then (String.intercalate " " obs, "ok") else
   match case with
@@ -129,6 +185,16 @@ def handle (case obs : List String) : String × String :=
         match unhex p with
         | none => bad
         | some path => (render (.tonic (dispatch reg path)), judge reg path false [] obs)
+      | _ => bad
+  | "seq" :: mode :: _ctor :: n :: rest =>
+    match nat? n with
+    | none => bad
+    | some n =>
+      match parseSvcs n rest with
+      | some (reg, r :: rest) =>
+        match (nat? r).bind (fun r => parseReqs r rest) with
+        | some paths => handleSeq mode reg paths obs
+        | none => bad
       | _ => bad
   | "plan" :: _wrap :: _meth :: n :: rest =>
     match nat? n with
